@@ -22,6 +22,7 @@ type ReplayResult struct {
 	Failed []string `json:"failed"`
 	Panic  string   `json:"panic"`
 	Covers []string `json:"covers"`
+	Race   bool     `json:"race,omitempty"` // the Go race detector reported a data race while this file ran
 }
 
 // ReplayFile is the on-disk form of a counterexample.
@@ -137,7 +138,7 @@ func TestVerifReplay(t *testing.T) {
 }
 
 // NativeReplay runs the replay files in dir (all for one package) against /repo's working tree.
-func NativeReplay(repo, verifDir, pkgDir, pkgName string, harnessFiles map[string][]byte, harnessNames []string, dir string, timeout time.Duration) (map[string]ReplayResult, string, error) {
+func NativeReplay(repo, verifDir, pkgDir, pkgName string, harnessFiles map[string][]byte, harnessNames []string, dir string, timeout time.Duration, race bool) (map[string]ReplayResult, string, error) {
 	tmp, err := os.MkdirTemp("", "verif-replay-")
 	if err != nil {
 		return nil, "", err
@@ -173,7 +174,11 @@ func NativeReplay(repo, verifDir, pkgDir, pkgName string, harnessFiles map[strin
 	var allOut bytes.Buffer
 	var skip []string
 	for round := 0; round < 12; round++ {
-		cmd := exec.Command("go", "test", "-v", "-vet=off", "-count=1", "-overlay", ovPath, "-run", "^TestVerifReplay$", "-timeout", fmt.Sprintf("%ds", int(timeout.Seconds())), "./"+pkgDir)
+		args := []string{"test", "-v", "-vet=off", "-count=1", "-overlay", ovPath, "-run", "^TestVerifReplay$", "-timeout", fmt.Sprintf("%ds", int(timeout.Seconds()))}
+		if race {
+			args = append(args, "-race")
+		}
+		cmd := exec.Command("go", append(args, "./"+pkgDir)...)
 		cmd.Dir = repo
 		cmd.Env = append(os.Environ(), "GOFLAGS=-mod=mod", "GOPROXY=off", "VERIF_REPLAY_DIR="+dir, "VERIF_REPLAY_SKIP="+strings.Join(skip, ","))
 		var out bytes.Buffer
@@ -182,6 +187,7 @@ func NativeReplay(repo, verifDir, pkgDir, pkgName string, harnessFiles map[strin
 		runErr := cmd.Run()
 		allOut.Write(out.Bytes())
 		started := ""
+		raced := map[string]bool{}
 		sc := bufio.NewScanner(bytes.NewReader(out.Bytes()))
 		sc.Buffer(make([]byte, 1<<20), 1<<26)
 		for sc.Scan() {
@@ -190,9 +196,13 @@ func NativeReplay(repo, verifDir, pkgDir, pkgName string, harnessFiles map[strin
 				started = strings.TrimSpace(line[k+19:])
 				continue
 			}
+			if strings.Contains(line, "WARNING: DATA RACE") && started != "" {
+				raced[started] = true
+			}
 			if k := strings.Index(line, "VERIF-REPLAY "); k >= 0 {
 				var r ReplayResult
 				if json.Unmarshal([]byte(line[k+13:]), &r) == nil {
+					r.Race = raced[filepath.Base(r.File)]
 					res[filepath.Base(r.File)] = r
 					skip = append(skip, filepath.Base(r.File))
 					started = ""
